@@ -9,13 +9,16 @@
 // the parametrisation named by the constructor; exactly -Inf outside the support;
 // normalisation (exhaustive sum / fixed Gauss-Legendre node set, gated on the reference);
 // CDF clauses; constructor rejection; Clone / Get-SetParameters / Export-ImportConfig round
-// trips; equality between the two holder types.
+// trips; equality between the two holder types; mutator histories (history.go): every exported
+// Set* / ImportConfig method found by reflection, histories of length 1 and 2 with arguments
+// from the family's lattice, the object compared with a fresh one at the final parameters.
 package main
 
 import (
 	"encoding/json"
 	"fmt"
 	"os"
+	"reflect"
 	"time"
 
 	"verif/mc/vf"
@@ -31,6 +34,7 @@ type task struct {
 
 var mainClauses = map[string]bool{"points": true, "cdf": true, "roundtrip": true, "holder": true}
 var normClause = map[string]bool{"norm": true}
+var histClause = map[string]bool{"history": true}
 
 func tasks(th bool) []task {
 	ts := []task{}
@@ -38,9 +42,22 @@ func tasks(th bool) []task {
 		f := fams[name]
 		for _, d := range f.valid(th) {
 			// the normalisation node sets dominate the cost: one task per holder type
-			ts = append(ts, task{fam: name, d: d, clauses: mainClauses})
-			for _, h := range holders {
-				ts = append(ts, task{fam: name, d: d, clauses: normClause, holder: h})
+			mc := mainClauses
+			if f.only != nil {
+				mc = map[string]bool{}
+				for k := range mainClauses {
+					mc[k] = f.only[k]
+				}
+			}
+			ts = append(ts, task{fam: name, d: d, clauses: mc})
+			if f.only == nil || f.only["norm"] {
+				for _, h := range holders {
+					ts = append(ts, task{fam: name, d: d, clauses: normClause, holder: h})
+				}
+			}
+			// mutator histories starting at d
+			if f.only == nil || f.only["history"] {
+				ts = append(ts, task{fam: name, d: d, clauses: histClause})
 			}
 		}
 		if f.invalid != nil {
@@ -58,16 +75,20 @@ func run(c *vf.Ctx) {
 	ts := tasks(rp.th)
 	if c.Shard == 0 {
 		c.Count("families", int64(len(famOrder)))
-		nv, ni := 0, 0
+		nv, ni, nh := 0, 0, 0
 		for _, t := range ts {
 			if t.iv != nil {
 				ni++
+			} else if t.clauses["history"] {
+				nh++
 			} else if t.holder == "" {
 				nv++
 			}
 		}
 		c.Count("valid parameter points", int64(nv))
 		c.Count("invalid constructor points", int64(ni))
+		c.Count("history: start points", int64(nh))
+		rp.countMutators()
 	}
 	for i, t := range ts {
 		if !c.Mine(int64(i)) {
@@ -81,6 +102,10 @@ func run(c *vf.Ctx) {
 		f := fams[t.fam]
 		if t.iv != nil {
 			rp.checkCtor(f, *t.iv, rank)
+			continue
+		}
+		if t.clauses["history"] {
+			rp.checkHistories(t.d, rank, t.holder)
 			continue
 		}
 		rp.checkInstance(t.d, rank, t.clauses, t.holder)
@@ -107,6 +132,13 @@ func replay(c *vf.Ctx, raw json.RawMessage) {
 		}
 		return
 	}
+	if cs.Clause == "history" {
+		env := &histEnv{f: f, h: cs.Holder, t: typeOf(cs.Holder), fresh: map[string]*freshObj{}}
+		env.muts = mutatorsOfType(reflect.TypeOf(f.fresh()), f.setters)
+		rp.runHistory(env, cs.Dist, cs.History, 0)
+		fmt.Printf("replayed history %s holder=%s: %s\n", cs.Dist, cs.Holder, seqOf(cs.History))
+		return
+	}
 	cl := map[string]bool{cs.Clause: true}
 	h := cs.Holder
 	if cs.Clause == "holder" {
@@ -127,13 +159,17 @@ func main() {
 		Level: "exploration",
 		Rule: "exhaustive product: family x valid parameter lattice x holder type {Float64, Real64} x evaluation point set (interior grid, boundary ±{0,1ulp,1e-9,1e-3}, far outside, ±Inf, non-integers) " +
 			"+ family x invalid constructor lattice; a case is non-trivial when the independent textbook reference decides it (value compared within a conditioning-derived tolerance, exact -Inf outside the support, " +
-			"a normalisation sum whose reference quadrature on the same fixed node set is itself 1 within 1e-8, a CDF point where LogCdf/Cdf returned values, a round trip that reached the comparison); each case is enumerated once",
+			"a normalisation sum whose reference quadrature on the same fixed node set is itself 1 within 1e-8, a CDF point where LogCdf/Cdf returned values, a round trip that reached the comparison); each case is enumerated once. " +
+			"Mutator histories: for every family, every exported method named Set* or ImportConfig of its type (found by reflection; those without an argument supplier are listed in the counters) x every start point of the valid lattice x every argument from the lattice (length 1), " +
+			"and every start point x every ordered pair of (mutator, argument) over a sub-lattice of <=8 (thorough 12) evenly spaced lattice points (length 2); after each history GetParameters, LogPdf on the probe points, the total mass (discrete families) and ExportConfig must equal those of an object built by the constructor at the modelled final parameters; a history is non-trivial when every step changes the modelled parameters",
 		Assume: []string{
 			"textbook parametrisation is the one named by constructor argument names, struct comments and repository tests (sigma = standard deviation / scale, gamma(shape, rate), negative binomial p^k (1-p)^r, beta log-scale: argument log(theta), density w.r.t. theta)",
 			"geometric: p(1-p)^k on k = 0,1,2,... (no doc/test names the convention)",
 			"an error return or a deliberate panic is accepted as refusal for points outside the support and for invalid constructor arguments; runtime panics are not",
 			"value at a boundary point of a continuous support may be the formula limit or -Inf",
 			"normalisation tolerance 1e-6; quadrature node set fixed per (support, tier), gated on the reference side only",
+			"mutator histories: SetParameters is given GetParameters() of a fresh object of the same shape (same structural constants, same start/final state sets for the HMM); SetStartStates restricts the CURRENT initial distribution (calls that leave it without mass are not enumerated); comparison with the fresh object within 1e-12 (1e-10 where parameters are stored transformed)",
+			"vectorDistribution.Hmm stands for the six HMM types that embed generic.Hmm (matrix, constrained, hierarchical, shape): their mutators are listed as not driven",
 		},
 		Run:       run,
 		Replay:    replay,
